@@ -359,6 +359,57 @@ func TestEnumLarge(t *testing.T) {
 	stats.Subspace("size ladder {L-2..L+3, 1.5L+1 : L = 2^k} u {L-2..L+3 : L = 10^k} u {4095..4097,65535,65536} for 9 structured shapes (vertices, members, rings, depth, one big member first/middle/last); tops per shape in rule.txt", size, true)
 }
 
+// TestEnumWalkEdge: regression for the finding tilecover-walk-wraps-west-of-world (fixed by f974f0c): a
+// ring with a vertex exactly on lon = -180 at zoom 6 made the tile walk step to column -1, which
+// wrapped to 2^32-1, and the scan-line fill never returned. The witness and its relatives (mirror with
+// a vertex on lon = +180, vertices on the top and bottom clamp rows, with and without the hole of the
+// original case) as polygon, ring, line, multi-polygon member and collection member, zoom 0..10, each
+// under the in-flight marker so that a runaway is a recorded failure, judged by the usual tilecover
+// assertions (generic = typed / union of members, no tile outside the world, vertex tiles covered).
+func TestEnumWalkEdge(t *testing.T) {
+	assumptions()
+	currentTest = "TestEnumWalkEdge"
+	const clamp = 85.0511287798066
+	base := orb.Ring{{-2.71435546875, 52}, {-180, 0}, {5.506734848022461, 0}, {1.165658950805664, -30}, {-2.71435546875, 52}}
+	hole := orb.Ring{{1.2016983032226562, 0}, {58.5, -16.739436149597168}, {0, 0}, {0, 0}, {-2.5073680877685547, -41}, {1.2016983032226562, 0}}
+	with := func(p orb.Point) orb.Ring {
+		r := base.Clone()
+		r[1] = p
+		return r
+	}
+	mirror := base.Clone()
+	for i := range mirror {
+		mirror[i][0] = -mirror[i][0]
+	}
+	rings := []orb.Ring{base, mirror, with(orb.Point{-180, clamp}), with(orb.Point{0.5, clamp}), with(orb.Point{0.5, -clamp}), with(orb.Point{180, -clamp}), with(orb.Point{-180, -clamp}), with(orb.Point{-180, 90})}
+	forms := func(r orb.Ring) []orb.Geometry {
+		return []orb.Geometry{
+			orb.Polygon{r}, orb.Polygon{r, hole}, r, orb.LineString(r),
+			orb.MultiPolygon{{squareRing(10, 10, 11, 11, false)}, {r}},
+			orb.Collection{orb.Point{1, 1}, orb.Polygon{r}}, orb.Collection{orb.Collection{orb.Ring(r)}},
+		}
+	}
+	only := map[string]bool{"tilecover.Geometry": true}
+	var idx, size int64
+	for ri, r := range rings {
+		for fi, g := range forms(r) {
+			for zoom := 0; zoom <= 10; zoom++ {
+				idx++
+				size++
+				if !stats.Mine(idx + int64(ri) + int64(fi)) {
+					continue
+				}
+				c := Case{G: gG(deepCopy(g)), H: gG(nil), World: "lonlat", Zoom: zoom, Box: defaultBox, Proj: "affine", Layout: []string{"shared", "spare", "plain"}[zoom%3]}
+				stats.Eval("TestEnumWalkEdge", 1)
+				stats.InFlight("TestEnumWalkEdge", c)
+				stats.TryT(t, "TestEnumWalkEdge", c, func() error { return checkCaseOnly(c, only) })
+				stats.InFlightDone()
+			}
+		}
+	}
+	stats.Subspace("tile walk at the edge of the world: the witness ring of tilecover-walk-wraps-west-of-world and 7 relatives (vertex on lon +-180, on the top / bottom clamp row, at the pole) x 7 forms x zoom 0..10", size, true)
+}
+
 // perturbLast is a copy of g whose last slice-held coordinate differs.
 func perturbLast(g orb.Geometry) orb.Geometry {
 	out := deepCopy(g)
